@@ -21,11 +21,18 @@ var capBad = []string{"not-a-version", "1.x", "v..2", "1.0.0.0.0.0.0.0.0.a",
 	// a version whose only defect is its pre-release or build suffix is unparsable all the same
 	"1.5.0+", "1.5.0+a..b", "1.5.0+?", "1.5.0+b+c", "1.5.0-a..b", "1.5.0+b ", "1.5.0-rc_1", "1.5.0+\u00e9"}
 
+// capForceBad: when set, every unparsable version / bound of the evaluation is this very text (a version
+// that is unparsable in the same way as a bound - identical strings - is still unparsable)
+var capForceBad string
+
 func capStr(rng *rand.Rand, pos int) string {
 	switch {
 	case pos == 0:
 		return ""
 	case pos < 0:
+		if capForceBad != "" {
+			return capForceBad
+		}
 		return capBad[rng.Intn(len(capBad))]
 	}
 	if a, ok := capBuildAlias[pos]; ok && rng.Intn(2) == 0 {
@@ -70,6 +77,11 @@ func capEval(tr *Tracer, rng *rand.Rand, caps [][][2]int, v int, custom bool, vi
 		}
 		return capStr(rng, p)
 	}
+	capForceBad = ""
+	if v < 0 && rng.Intn(2) == 0 {
+		capForceBad = capBad[rng.Intn(len(capBad))]
+	}
+	defer func() { capForceBad = "" }()
 	t := capability.Target{}
 	if custom {
 		t.VersionComparer = capCustom
@@ -115,7 +127,7 @@ func capEval(tr *Tracer, rng *rand.Rand, caps [][][2]int, v int, custom bool, vi
 	}
 	t.Capabilities = cs
 	vs := str(v)
-	if v < 0 && rng.Intn(3) == 0 {
+	if v < 0 && capForceBad == "" && rng.Intn(3) == 0 {
 		vs = "" // no version at all is an unparsable version too (an empty *bound* means "unbounded", an empty version nothing)
 	}
 	ver, err := t.Version(vs)
